@@ -36,6 +36,15 @@ CLAIMS = {
         design="6 C15",
         technique="explicit TLA+ spec + TLC model checking; TLC-generated histories replayed on the code and judged by TLC (trace validation)",
     ),
+    "C14": dict(
+        spec="FsConnect.tla / FsConnectGen.tla / FsConnectJudge.tla",
+        text="TLC model-checks connect() over the complete product of argument presence x letter case x both auto-create flags x "
+        "storage mode (memory, empty db_path, db_path with an earlier instance's files) x prior catalog x connection order "
+        "(up to three sessions); every transition of that graph is replayed on a real FakeSnow instance (outcome, reported "
+        "names, 90105/90106 probe, raw catalog, files on disk, every earlier session re-observed) and judged by TLC.",
+        design="6 C14",
+        technique="explicit TLA+ spec + TLC model checking (exhaustive over the configuration product); transitions replayed on the code and judged by TLC",
+    ),
 }
 
 
